@@ -467,7 +467,13 @@ namespace _ST_PRIVATE
                 *dest++ = badchar_substitute;
             } else {
                 error = write_utf16(dest, bigch);
-                ST_ASSERT(error == conversion_error_t::success, "Input character out of range");
+                if (error != conversion_error_t::success) {
+                    // A structurally valid 4-byte sequence can still encode a
+                    // value above U+10FFFF, which UTF-16 cannot represent
+                    if (validation == ST::check_validity)
+                        return error;
+                    *dest++ = badchar_substitute;
+                }
             }
         }
 
